@@ -35,7 +35,15 @@ def run(c):
         all_digests.append((gmp, d))
     base_g, base = all_digests[0]
     for g, d in all_digests[1:]:
-        for k in sorted(set(base) | set(d)):
+        # a digest that only one side has is not a difference: the producing process ended that behaviour early (a violation of
+        # another property's oracle, reported by that property's check) and shipped fewer blocks / no final state
+        both = sorted(set(base) & set(d))
+        only = sorted(set(base) ^ set(d))
+        if only:
+            c.notes.append("GOMAXPROCS %s vs %s: %d digests exist on one side only (behaviour ended early in the producing process), e.g. %s" % (base_g, g, len(only), only[0]))
+        if len(both) < 0.7 * max(len(base), len(d), 1):
+            raise vlib.Infra("too few digests to compare between processes: %d of %d" % (len(both), max(len(base), len(d))))
+        for k in both:
             c.count("xproc|" + k + "|" + g)
             if base.get(k) != d.get(k):
                 c.violation({"kind": "cross-process-digest"}, {"block": k, "gomaxprocs": [base_g, g], "digests": [base.get(k), d.get(k)]},
